@@ -264,6 +264,8 @@ def support(ctx, broken):
             if k not in seen:
                 seen.add(k)
                 sup.failures.append(fl)
+    # every distinct failing signature goes into the evidence (the replay file only carries the first one)
+    sup.distribution["failures_found"] = [{"sig": f.sig, "detail": f.detail[:240]} for f in sup.failures]
     return sup
 
 
